@@ -7,7 +7,9 @@
 // $Source$
 // $Revision$
 
-use fpdec_core::{i128_div_rounded, ten_pow, Round};
+use fpdec_core::{
+    checked_mul_pow_ten, i128_div_rounded, mul_pow_ten, ten_pow, Round,
+};
 
 use crate::Decimal;
 #[cfg(doc)]
@@ -39,7 +41,15 @@ impl Round for Decimal {
         if n_frac_digits >= self.n_frac_digits as i8 {
             self
         } else if n_frac_digits < self.n_frac_digits as i8 - 38 {
-            Self::ZERO
+            // |self| < 10^-n_frac_digits / 2, so the rounded quotient is
+            // 0 or +/-1, depending on the sign and the rounding mode.
+            match i128_div_rounded(self.coeff.signum(), 4, None) {
+                0 => Self::ZERO,
+                quot => Self {
+                    coeff: mul_pow_ten(quot, n_frac_digits.unsigned_abs()),
+                    n_frac_digits: 0,
+                },
+            }
         } else {
             // n_frac_digits < self.n_frac_digits
             let shift: u8 = (self.n_frac_digits as i8 - n_frac_digits) as u8;
@@ -86,7 +96,18 @@ impl Round for Decimal {
         if n_frac_digits >= self.n_frac_digits as i8 {
             Some(self)
         } else if n_frac_digits < self.n_frac_digits as i8 - 38 {
-            Some(Self::ZERO)
+            // |self| < 10^-n_frac_digits / 2, so the rounded quotient is
+            // 0 or +/-1, depending on the sign and the rounding mode.
+            match i128_div_rounded(self.coeff.signum(), 4, None) {
+                0 => Some(Self::ZERO),
+                quot => {
+                    checked_mul_pow_ten(quot, n_frac_digits.unsigned_abs())
+                        .map(|coeff| Self {
+                            coeff,
+                            n_frac_digits: 0,
+                        })
+                }
+            }
         } else {
             // n_frac_digits < self.n_frac_digits
             let shift: u8 = (self.n_frac_digits as i8 - n_frac_digits) as u8;
